@@ -29,6 +29,11 @@ P = lambda n: ("prim", n)
 TYPE_VIOLATIONS = [
     ("unknown-type", '"NoSuchType"', None),
     ("unknown-generic", '"NoSuchGeneric<int>"', None),
+    # a name that is only the type parameter of *another* generic definition (ZzBox<T>, ZzOther<ZzQ>, imported ZzImpOther<ZzImpT>) is not a type
+    ("unknown-type-is-foreign-type-parameter", '"T"', None),
+    ("unknown-type-is-foreign-type-parameter-2", '"ZzQ"', None),
+    ("unknown-type-is-imported-type-parameter", '"ZzImpT"', None),
+    ("unknown-type-is-foreign-type-parameter-in-generic-argument", '"ZzBox<ZzQ>"', None),
     ("generic-arity-on-primitive", '"int<float>"', None),
     ("union-null-only", "[null]", None),
     ("union-null-not-first", "[int, null]", None),
@@ -56,7 +61,7 @@ WRAPPERS = [
     ("nested", lambda t: ("vec", ("map", P("string"), ("opt", t)), None)),
 ]
 
-SITES = ["field", "step", "stream-items", "alias"]
+SITES = ["field", "step", "stream-items", "alias", "generic-field", "generic-alias"]
 PLACEMENTS = ["main", "second-file", "import", "previous-version"]
 
 
@@ -75,7 +80,7 @@ def run(report, tier, seed):
         ybin = vlib.build_yardl(sc)
         rr = random.Random(seed * 7331 + 9)
         n_bases = 2 if quick else 8
-        per_base = 70 if quick else 260
+        per_base = 100 if quick else 300
         for b in range(n_bases):
             g = modelgen.Gen(seed * 100183 + b)
             g.avoid_bool_sequences = False
@@ -95,6 +100,10 @@ def run(report, tier, seed):
             for w in WRAPPERS:
                 for p in PLACEMENTS:
                     must.append((rr.choice(TYPE_VIOLATIONS), w, rr.choice(SITES), p))
+            for v in TYPE_VIOLATIONS:
+                if v[0].startswith("unknown"):
+                    for s in ("generic-field", "generic-alias"):
+                        must.append((v, WRAPPERS[0] if rr.random() < 0.6 else rr.choice(WRAPPERS), s, rr.choice(PLACEMENTS)))
             for (v, w, s, pl) in (must + combos)[:per_base]:
                 _type_case(report, ybin, sc, seed, b, pkg, v, w, s, pl, rr)
             for dv in DEF_VIOLATIONS:
@@ -105,13 +114,21 @@ def run(report, tier, seed):
 def _site_defs(kind, bad):
     """definitions that carry the (wrapped) violating type at the requested site"""
     box = {"kind": "record", "name": "ZzBox", "tparams": ["T"], "fields": [("v", ("tparam", "T"))]}
+    other = {"kind": "record", "name": "ZzOther", "tparams": ["ZzQ"], "fields": [("q", ("tparam", "ZzQ"))]}
+    if kind == "generic-field":
+        # a generic definition that is never instantiated: its own parameter is U, nothing else is in scope
+        return [box, other, {"kind": "record", "name": "ZzHost", "tparams": ["U"], "fields": [("u", ("tparam", "U")), ("bad", bad)]}]
+    if kind == "generic-alias":
+        return [box, other, {"kind": "record", "name": "ZzUsesU", "tparams": ["U"], "fields": [("u", ("tparam", "U"))]},
+                {"kind": "alias", "name": "ZzHost", "tparams": ["U"], "type": ("union", False, [("mine", ("named", "ZzUsesU", [("tparam", "U")])), ("bad", bad)])}]
+    box = [box, other]
     if kind == "field":
-        return [box, {"kind": "record", "name": "ZzHost", "tparams": [], "fields": [("ok", P("int32")), ("bad", bad)]}]
+        return box + [{"kind": "record", "name": "ZzHost", "tparams": [], "fields": [("ok", P("int32")), ("bad", bad)]}]
     if kind == "alias":
-        return [box, {"kind": "alias", "name": "ZzHost", "tparams": [], "type": bad}]
+        return box + [{"kind": "alias", "name": "ZzHost", "tparams": [], "type": bad}]
     if kind == "step":
-        return [box, {"kind": "protocol", "name": "ZzHost", "steps": [("first", P("int32"), False), ("bad", bad, False)]}]
-    return [box, {"kind": "protocol", "name": "ZzHost", "steps": [("first", P("int32"), False), ("bad", bad, True)]}]
+        return box + [{"kind": "protocol", "name": "ZzHost", "steps": [("first", P("int32"), False), ("bad", bad, False)]}]
+    return box + [{"kind": "protocol", "name": "ZzHost", "steps": [("first", P("int32"), False), ("bad", bad, True)]}]
 
 
 def _place(pkg, defs, placement, rr):
@@ -179,6 +196,10 @@ def _type_case(report, ybin, sc, seed, b, pkg, v, w, site, placement, rr):
         return   # a stream directly at a step is the legal place
     bad = wrap(("raw", raw))
     defs = _site_defs(site, bad)
+    if wname == "union-case" and site == "generic-alias":
+        return   # unions do not nest: that would be a second violation
+    pkg = copy.deepcopy(pkg)
+    pkg.imports[0].defs = pkg.imports[0].defs + [{"kind": "record", "name": "ZzImpOther", "tparams": ["ZzImpT"], "fields": [("q", ("tparam", "ZzImpT"))]}]
     p, old, wdir, wfile = _place(pkg, defs, placement, rr)
     name = f"t-{rule}-{wname}-{site}-{placement}"
     ok, text, d = _validate(ybin, sc.path(f"b{b}"), name, p, old)
